@@ -752,6 +752,11 @@ def module_grid(tier):
     add("linsolve", "n2-cplx-lda", n=2, cplx=True, lda=not q)
     add("linsolve", "n2-herm", n=2, cplx=True, mclass="hermitian", lda=not q)
     add("linsolve", "n2-csym", n=2, cplx=True, mclass="symmetric", lda=not q)
+    if not q:
+        # user-supplied class flags with the default LDAWrapper (the flags decide which storage / conjugation the adjoint solve
+        # uses); complex LDAWrapper runs do not finish in the quick budget and are often inconclusive here too
+        add("linsolve", "n2-herm-hermflag-lda", n=2, cplx=True, mclass="hermitian", lda=True, flags=dict(hermitian=True))
+        add("linsolve", "n2-csym-symflag-lda", n=2, cplx=True, mclass="symmetric", lda=True, flags=dict(symmetric=True))
     add("linsolve", "n2-2rhs", n=2, nrhs=2, lda=not q)
     add("linsolve", "n2-sp-2rhs", n=2, nrhs=2, sparse=True, lda=False)
     add("linsolve", "n2-cplxrhs", n=2, cplx_rhs=True, lda=False)
